@@ -1,0 +1,52 @@
+//go:build verif
+
+// Package verifhook provides named hook points for the verification harness
+// (/verif). With the "verif" build tag a registered callback may log or block.
+package verifhook
+
+import "sync"
+
+var (
+	mu       sync.RWMutex
+	callback func(name string, args ...any)
+	tuning   = map[string]any{}
+)
+
+// Enabled reports whether hooks are compiled in.
+const Enabled = true
+
+// Set installs the callback invoked at every Point (nil removes it).
+func Set(f func(name string, args ...any)) {
+	mu.Lock()
+	callback = f
+	mu.Unlock()
+}
+
+// Point calls the registered callback, which may block (gate) or log.
+func Point(name string, args ...any) {
+	mu.RLock()
+	f := callback
+	mu.RUnlock()
+	if f != nil {
+		f(name, args...)
+	}
+}
+
+// SetTuning stores a named tuning value read by *_verif.go tuning functions.
+func SetTuning(name string, v any) {
+	mu.Lock()
+	if v == nil {
+		delete(tuning, name)
+	} else {
+		tuning[name] = v
+	}
+	mu.Unlock()
+}
+
+// Tuning returns a named tuning value.
+func Tuning(name string) (any, bool) {
+	mu.RLock()
+	defer mu.RUnlock()
+	v, ok := tuning[name]
+	return v, ok
+}
